@@ -61,6 +61,7 @@ class Ctx:
         self.binding_selfcheck = None
         self.exhaustive = False
         self.quick = tier == "quick"
+        self.keys = {}
 
     # ---------------------------------------------------------------- MC
     def mc(self, module, cfg, workers=16, timeout=3000, args=(), heap="8g", expect_ok=True,
@@ -287,8 +288,13 @@ def binding_selfcheck(ctx, module, events, n=3, mutate=corrupt_event, const=None
     rj = ctx.validate(module, cands, shards=1, const=const)
     ctx.states, ctx.transitions, ctx.traces, ctx.evaluations = st, tr, tv, evs
     if len(rj) != len(cands):
-        raise MachineryError("binding self-check: corrupted events were accepted by %s: %r"
-                             % (module, [c["id"] for c in cands if c["id"] not in rj]))
+        msg = "binding self-check: corrupted events were accepted by %s: %r" % (
+            module, [c["id"] for c in cands if c["id"] not in rj])
+        if ctx.violations:      # violations are reported regardless; note the self-check problem
+            ctx.binding_selfcheck = {"failed": msg}
+            print("WARNING " + msg)
+            return
+        raise MachineryError(msg)
     ctx.binding_selfcheck = {"corrupted_events": len(cands), "rejected": len(rj)}
 
 
@@ -304,6 +310,7 @@ def build_events(ctx, inputs, start=0):
     for i, (a, inp, key) in enumerate(inputs):
         ev = acts.make(a, inp, start + i)
         events.append(ev)
+        ctx.keys[ev["id"]] = key
         ctx.nontriv((a,) + tuple(key) + (ev.get("res", {}).get("ok"),))
     return events
 
